@@ -110,6 +110,7 @@ type TypeContract struct {
 }
 
 type Axiom struct {
+	Props []string
 	Scope string
 	Expr  *Expr
 	Text  string
@@ -397,7 +398,7 @@ func (cs *ContractSet) LoadContractFile(path string, pkgKey string) error {
 			if err != nil {
 				return fail("%v", err)
 			}
-			cs.axioms = append(cs.axioms, &Axiom{Scope: pkgKey, Expr: e, Text: rest})
+			cs.axioms = append(cs.axioms, &Axiom{Scope: pkgKey, Expr: e, Text: rest, Props: props})
 		case "callbackinv":
 			// callbackinv "<callee name>" : expr -- holds before the call, is preserved by every run of the closure passed
 			// to it (the closure's own contract must require and ensure it), hence holds after the call
